@@ -20,7 +20,8 @@ RULE = ("grammar-generated extended ACE texts in every accepted spelling (names/
         "{ios,nxos} x 6 version strings x {port_nr,protocol_nr}; every protocol 0..255 and every table name is hit "
         "once per run before random sampling; judged = ACE constructions compared field by field with the "
         "independent reader + re-read of the rendered line; distinct non-trivial = distinct feature signature with a "
-        "non-canonical spelling, a port or a flag")
+        "non-canonical spelling, a port or a flag"
+        " Round 4: every text is also assigned to the line of a live entry that held the previous text (same judgement); one entry per run with max_ncwb=17 whose 2^17-prefix address set is expanded completely.")
 ASSUMPTIONS = ["per-platform name vocabularies are taken from the library's public PortName/Protocol API; numbers from "
                "oracle/names.py", "flag tokens are the six TCP flags; log tokens log/log-input"]
 
